@@ -403,8 +403,10 @@ class RefBlock:
 
             # Special offset calculation: second_ref_offset + EMBEDDED_FOOTER_MARKER
             if len(ref_offsets) > 0:
+                # (one byte only: a first record of 228 bytes or more, i.e. a
+                # long ref name, must not make the block unwritable)
                 special_offset = ref_offsets[0] + EMBEDDED_FOOTER_MARKER
-                result.write(struct.pack("B", special_offset))
+                result.write(struct.pack("B", special_offset & 0xFF))
             else:
                 result.write(b"\x00")
 
